@@ -1,14 +1,167 @@
 /-
 C04 — emitted bag-of-cells bytes conform to the TON BoC wire format.
-(work in progress: see Proofs/BocEmit.lean)
+
+* `Model.emit` / `Model.PCell.toBoc` (Model/BocEmit.lean) mirror `Cell.to_boc` (flags byte, size width, offset width
+  incl. the doubling with cache bits, roots, absent, index, CRC) and `Cell.serialize`; `Model.PCell.order` mirrors
+  `Cell.order`.
+* `Spec.Boc.strictParse` (Spec/Boc.lean) is the independent strict reader transcribed from boc.tlb
+  `serialized_boc#b5ee9c72 …` + the reference node's checks.  It has a byte-level layer `strictFlat`
+  (header, widths, index, CRC, record framing, completion tags, references forward, no trailing bytes) and a
+  semantic layer `evalRecs`/`noDup` (level bits of d1 = computed level mask, no duplicate cell, rebuilt trees).
+
+What is proved here, for ALL inputs:
+  `c04_conforms_flat` — for EVERY list of well-formed cell records whose references point strictly forward (that is:
+  any DAG in any valid order), every valid option set (all 6), every count < 2^32 and payload < 2^63 bytes, `emit`
+  succeeds and the byte-level strict reader accepts the bytes and recovers exactly the records (d1, data bits,
+  reference indices) and the single root 0; plus the five clause lemmas named in the property.
+  `order_valid` (Proofs/BocOrder.lean, re-exported below when available) — the model of `Cell.order` yields a valid
+  order under a local no-collision hypothesis.
+
+FULL STATEMENT (goal; the part not yet proved is the semantic layer on trees):
+
+  theorem c04_conforms (H) (t : Cell) (wf : TreeWF H t) (tagged : every exotic cell's data starts with its type byte)
+      (p : PCell) (hp : Cell.build H t = some p) (nc : NoCollision p) (ord : List PCell) (vo : ValidOrder p ord)
+      (o : Opts) (hv : o.valid) :
+      ∃ recs bs, flattenCells (indexMap ord) ord = some recs ∧ emit recs o = some bs ∧
+        strictParse H bs = some [toSCell t]
+
+  Missing for it (see design/C04.md): (1) `cell_arec`: a built cell's descriptor/data bytes form an `ARec.OK` record and
+  `decodeBits d2 (dataBytes bits) = bits` (completion-tag round trip); (2) `evalRecs_flatten`: the level masks / hashes the
+  spec computes over the flat records equal those of the tree (via Proofs/CellSpec `tree_agrees`) so that the level-bit
+  and duplicate checks pass and the rebuilt tree is `toSCell t`.  Both are exercised on every run by the oracle
+  (the Lean strict reader incl. its semantic layer runs on the library's real output).
 -/
 import TonVerif.Proofs.BocEmit
+-- ORDER-IMPORT import TonVerif.Proofs.BocOrder
 
 namespace TonVerif.Properties.C04
-open TonVerif TonVerif.Model TonVerif.Proofs.BocEmit
+open TonVerif TonVerif.Model TonVerif.Spec.Boc TonVerif.Proofs.BocEmit
 
-/-- `widths_sufficient`: the size width `(n.bit_length()+7)//8` chosen by `to_boc` for a count / length `n`
-always holds `n` (so `n.to_bytes(width)` never overflows and decodes back to `n`). -/
+/-- the six valid option sets are exactly the `Opts` with `valid` and `flags = 0` -/
+theorem valid_opts (o : Opts) : o.valid = true ↔
+    o ∈ [⟨false, false, false, 0⟩, ⟨false, true, false, 0⟩, ⟨true, false, false, 0⟩, ⟨true, true, false, 0⟩,
+         ⟨true, false, true, 0⟩, ⟨true, true, true, 0⟩] := by
+  obtain ⟨i, c, h, f⟩ := o
+  cases i <;> cases c <;> cases h <;> simp [Opts.valid]
+
+/-- **conformance, byte level** (`c04_conforms` restricted to the byte-level layer of the strict reader, but for
+arbitrary record lists — any DAG in any valid order): `to_boc`'s layout is accepted by the independent strict reader,
+which recovers the same records and the root list `[0]`. -/
+theorem c04_conforms_flat (o : Opts) (as : List ARec) (hv : o.valid = true) (h1 : 1 ≤ as.length) (hn : as.length < 2 ^ 32)
+    (hP : (payloadOf (sizeW as) as).length * 2 < 2 ^ 64) (ok : ∀ a ∈ as, a.OK as.length) (fw : Forward as) :
+    ∃ bs, emit (as.map ARec.toRec) o = some bs ∧ strictFlat bs = some ⟨as.map ARec.toSRec, [0]⟩ := by
+  obtain ⟨bs, h1, _, h2⟩ := strictFlat_emit o as hv h1 hn hP ok fw
+  exact ⟨bs, h1, h2⟩
+
+/-- `widths_sufficient`: the width `(n.bit_length()+7)//8` chosen by `to_boc` for a count / length `n` holds `n`. -/
 theorem widths_sufficient (n : Nat) : n < 256 ^ byteWidth n := lt_pow_byteWidth n
+
+/-- `widths_sufficient` in context: the size width holds the cell count, the root count and every reference index;
+the offset width holds the payload length and every index entry, also when doubled by the cache bits; both stay
+within the format's limits (size ≤ 4, off_bytes ≤ 8). -/
+theorem widths_sufficient_emit (o : Opts) (as : List ARec) (h1 : 1 ≤ as.length) (hn : as.length < 2 ^ 32)
+    (hP : (payloadOf (sizeW as) as).length * 2 < 2 ^ 64) (ok : ∀ a ∈ as, a.OK as.length) :
+    as.length < 256 ^ sizeW as ∧ 1 < 256 ^ sizeW as ∧ (∀ a ∈ as, ∀ j ∈ a.refs, j < 256 ^ sizeW as) ∧
+    (payloadOf (sizeW as) as).length < 256 ^ offOf o as ∧
+    (∀ e ∈ cumulative (lensOf (sizeW as) as), (if o.hasCache = true then e * 2 else e) < 256 ^ offOf o as) ∧
+    1 ≤ sizeW as ∧ sizeW as ≤ 4 ∧ offOf o as ≤ 8 := by
+  have hsz1 : 1 ≤ sizeW as := byteWidth_pos _ h1
+  have hnlt : as.length < 256 ^ sizeW as := lt_pow_byteWidth _
+  refine ⟨hnlt, Nat.one_lt_pow (by omega) (by decide), ?_, ?_, index_entry_lt o as, hsz1,
+    byteWidth_le _ 4 (by simpa using hn), ?_⟩
+  · intro a ha j hj
+    exact Nat.lt_trans ((ok a ha).refs_lt j hj) hnlt
+  · unfold offOf
+    split
+    · exact Nat.lt_of_le_of_lt (by omega) (lt_pow_byteWidth _)
+    · exact lt_pow_byteWidth _
+  · unfold offOf
+    apply byteWidth_le
+    split <;> omega
+
+/-- `refs_forward`: in the records the strict reader decodes from the emitted bytes every reference index is
+strictly greater than the index of the referring cell and smaller than the cell count. -/
+theorem refs_forward (as : List ARec) (ok : ∀ a ∈ as, a.OK as.length) (fw : Forward as) :
+    refsForward (as.map ARec.toSRec) = true := refsForward_of as ok fw
+
+theorem count_one_of_nodup : ∀ (l : List Nat) (a : Nat), l.Nodup → a ∈ l → l.count a = 1
+  | [], _, _, hm => by simp at hm
+  | x :: xs, a, h, hm => by
+    rw [List.nodup_cons] at h
+    by_cases hx : x = a
+    · subst hx
+      simp [List.count_eq_zero.2 h.1]
+    · have hm' : a ∈ xs := by
+        rcases List.mem_cons.1 hm with h' | h'
+        · exact absurd h'.symm hx
+        · exact h'
+      simp [hx, count_one_of_nodup xs a h.2 hm']
+
+-- ORDER-BLOCK-HERE
+/-- … and the emitted bag has exactly one record per listed cell, in the same order (nothing dropped or repeated). -/
+theorem each_once_records (o : Opts) (as : List ARec) (hv : o.valid = true) (h1 : 1 ≤ as.length) (hn : as.length < 2 ^ 32)
+    (hP : (payloadOf (sizeW as) as).length * 2 < 2 ^ 64) (ok : ∀ a ∈ as, a.OK as.length) (fw : Forward as) :
+    ∃ bs f, emit (as.map ARec.toRec) o = some bs ∧ strictFlat bs = some f ∧ f.recs.length = as.length ∧
+      ∀ i : Nat, f.recs[i]? = (as[i]?).map ARec.toSRec := by
+  obtain ⟨bs, he, hs⟩ := c04_conforms_flat o as hv h1 hn hP ok fw
+  exact ⟨bs, _, he, hs, by simp, by intro i; simp⟩
+
+/-- `index_cumulative`: the emitted bytes are header ++ index ++ cell data ++ crc where, with the index option, the
+index is one `off_bytes`-wide big-endian entry per cell holding the cumulative END offset of that cell's record in the
+cell data — doubled when the cache bits are on — and is empty without the index option. -/
+theorem index_cumulative (o : Opts) (as : List ARec) (hv : o.valid = true) (h1 : 1 ≤ as.length) (hn : as.length < 2 ^ 32)
+    (hP : (payloadOf (sizeW as) as).length * 2 < 2 ^ 64) (ok : ∀ a ∈ as, a.OK as.length) :
+    ∃ hdr idx tail, emit (as.map ARec.toRec) o = some (hdr ++ idx ++ payloadOf (sizeW as) as ++ tail) ∧
+      hdr.length = 6 + 4 * sizeW as + offOf o as ∧
+      idx = (if o.hasIdx then ((cumulative (lensOf (sizeW as) as)).map
+              (fun e => natToBE (offOf o as) (if o.hasCache then e * 2 else e))).flatten else []) ∧
+      (o.hasIdx = true → ∀ rest, uintsBE as.length (offOf o as) (idx ++ rest) =
+        some ((cumulative (lensOf (sizeW as) as)).map (fun e => if o.hasCache then e * 2 else e), rest)) ∧
+      (cumulative (lensOf (sizeW as) as)).getLast? = some (payloadOf (sizeW as) as).length := by
+  refine ⟨bocMagic ++ (flagByte o (sizeW as) :: offOf o as :: (natToBE (sizeW as) as.length ++ (natToBE (sizeW as) 1 ++
+    (natToBE (sizeW as) 0 ++ (natToBE (offOf o as) (payloadOf (sizeW as) as).length ++ natToBE (sizeW as) 0))))),
+    indexOf o (offOf o as) (sizeW as) as, tailOf o as, ?_, ?_, rfl, ?_, ?_⟩
+  · rw [emit_eq o as hv h1 hn hP ok]
+    simp [bodyOf, tailOf, List.append_assoc]
+  · simp [bocMagic, natToBE_length]; omega
+  · intro hi rest
+    have := uintsBE_flatten (offOf o as) ((cumulative (lensOf (sizeW as) as)).map (fun e => if o.hasCache = true then e * 2 else e))
+      rest (by
+        intro v hv
+        obtain ⟨e, he, rfl⟩ := List.mem_map.1 hv
+        exact index_entry_lt o as e he)
+    simp only [List.length_map, cumulative, cumulativeFrom_length, lensOf, List.map_map] at this
+    simpa [indexOf, hi, cumulative, lensOf, Function.comp_def] using this
+  · exact cumulative_last (sizeW as) as h1
+
+/-- `crc_covers_prefix`: with the CRC option the emitted bytes are `body ++ crc` where `crc` is the little-endian
+CRC-32C (bitwise definition, Spec/Crc.lean) of the whole `body`, i.e. of every byte before it; without it nothing
+follows the cell data. -/
+theorem crc_covers_prefix (o : Opts) (as : List ARec) (hv : o.valid = true) (h1 : 1 ≤ as.length) (hn : as.length < 2 ^ 32)
+    (hP : (payloadOf (sizeW as) as).length * 2 < 2 ^ 64) (ok : ∀ a ∈ as, a.OK as.length) :
+    ∃ body, emit (as.map ARec.toRec) o = some (body ++ (if o.hasCrc then crc32cLE body else [])) ∧
+      ∃ pre, body = pre ++ payloadOf (sizeW as) as :=
+  ⟨bodyOf o as, emit_eq o as hv h1 hn hP ok, _, by
+    unfold bodyOf
+    simp only [← List.append_assoc, ← List.cons_append]
+    rfl⟩
+
+/-! Non-vacuity: a three-cell bag (root with two references to leaves, one leaf with 5 data bits) satisfies the
+hypotheses; the emitted bytes with index + CRC + cache bits are accepted. -/
+def sample : List ARec := [⟨2, 1, [0xb4], [1, 2]⟩, ⟨0, 0, [], []⟩, ⟨0, 2, [0xaa], []⟩]
+
+example : (∀ a ∈ sample, a.OK sample.length) ∧ Forward sample ∧ 1 ≤ sample.length := by
+  refine ⟨?_, ?_, by decide⟩
+  · intro a ha
+    simp only [sample, List.mem_cons, List.not_mem_nil, or_false] at ha
+    rcases ha with rfl | rfl | rfl <;>
+      exact ⟨by decide, by decide, by decide, by decide, by decide, by decide, by decide, by decide, by decide, by decide⟩
+  · intro i a h j hj
+    have : i = 0 ∨ i = 1 ∨ i = 2 ∨ 3 ≤ i := by omega
+    rcases this with rfl | rfl | rfl | h3
+    · simp [sample] at h; subst h; simp at hj; omega
+    · simp [sample] at h; subst h; simp at hj
+    · simp [sample] at h; subst h; simp at hj
+    · rw [List.getElem?_eq_none (by simp [sample]; omega)] at h; cases h
 
 end TonVerif.Properties.C04
